@@ -43,7 +43,18 @@ pub const ENTRIES: [&str; 14] = [
 
 pub fn starts() -> Vec<usize> {
     let m = isize::MAX as usize;
-    vec![1, 2, 1 << 31, 1 << 32, m - 1, m, m + 1, m + 2, usize::MAX - 1, usize::MAX]
+    vec![
+        1,
+        2,
+        1 << 31,
+        1 << 32,
+        m - 1,
+        m,
+        m + 1,
+        m + 2,
+        usize::MAX - 1,
+        usize::MAX,
+    ]
 }
 
 trait Dy: Send + Sync {
@@ -115,84 +126,206 @@ pub fn child(entry: usize, start: usize) -> i32 {
     match entry {
         0 => {
             let a: Arc<u64> = Arc::new(5);
-            go!(a.heap_ptr() as usize, Arc::count(&a), || { Arc::count(&a); }, a.clone())
+            go!(
+                a.heap_ptr() as usize,
+                Arc::count(&a),
+                || {
+                    Arc::count(&a);
+                },
+                a.clone()
+            )
         }
         1 => {
             let a: Arc<[u16]> = Arc::from(vec![1u16, 2, 3]);
-            go!(a.heap_ptr() as usize, Arc::count(&a), || { Arc::count(&a); }, a.clone())
+            go!(
+                a.heap_ptr() as usize,
+                Arc::count(&a),
+                || {
+                    Arc::count(&a);
+                },
+                a.clone()
+            )
         }
         2 => {
             let p = Arc::into_raw(Arc::new(9u32)) as *const dyn Dy;
             let a: Arc<dyn Dy> = unsafe { Arc::from_raw(p) };
-            go!(a.heap_ptr() as usize, Arc::count(&a), || { Arc::count(&a); }, a.clone())
+            go!(
+                a.heap_ptr() as usize,
+                Arc::count(&a),
+                || {
+                    Arc::count(&a);
+                },
+                a.clone()
+            )
         }
         3 => {
             let t: ThinArc<u8, u32> = ThinArc::from_header_and_slice(1, &[1, 2, 3]);
-            go!(t.heap_ptr() as usize, ThinArc::strong_count(&t), || { ThinArc::strong_count(&t); }, t.clone())
+            go!(
+                t.heap_ptr() as usize,
+                ThinArc::strong_count(&t),
+                || {
+                    ThinArc::strong_count(&t);
+                },
+                t.clone()
+            )
         }
         4 => {
             let o = Arc::into_raw_offset(Arc::new(5u64));
-            go!(o.with_arc(|a| a.heap_ptr() as usize), OffsetArc::strong_count(&o), || { OffsetArc::strong_count(&o); }, o.clone())
+            go!(
+                o.with_arc(|a| a.heap_ptr() as usize),
+                OffsetArc::strong_count(&o),
+                || {
+                    OffsetArc::strong_count(&o);
+                },
+                o.clone()
+            )
         }
         5 => {
             let o = Arc::into_raw_offset(Arc::new(5u64));
-            go!(o.with_arc(|a| a.heap_ptr() as usize), OffsetArc::strong_count(&o), || { OffsetArc::strong_count(&o); }, o.clone_arc())
+            go!(
+                o.with_arc(|a| a.heap_ptr() as usize),
+                OffsetArc::strong_count(&o),
+                || {
+                    OffsetArc::strong_count(&o);
+                },
+                o.clone_arc()
+            )
         }
         6 => {
             let a: Arc<u64> = Arc::new(5);
             let b = a.borrow_arc();
-            go!(a.heap_ptr() as usize, ArcBorrow::strong_count(&b), || { ArcBorrow::strong_count(&b); }, b.clone_arc())
+            go!(
+                a.heap_ptr() as usize,
+                ArcBorrow::strong_count(&b),
+                || {
+                    ArcBorrow::strong_count(&b);
+                },
+                b.clone_arc()
+            )
         }
         7 => {
             let u: ArcUnion<u64, u32> = ArcUnion::from_first(Arc::new(5));
             let heap = u.as_first().unwrap().with_arc(|a| a.heap_ptr() as usize);
-            go!(heap, ArcUnion::strong_count(&u), || { ArcUnion::strong_count(&u); }, u.clone())
+            go!(
+                heap,
+                ArcUnion::strong_count(&u),
+                || {
+                    ArcUnion::strong_count(&u);
+                },
+                u.clone()
+            )
         }
         8 => {
             let u: ArcUnion<u64, u32> = ArcUnion::from_second(Arc::new(5));
             let heap = u.as_second().unwrap().with_arc(|a| a.heap_ptr() as usize);
-            go!(heap, ArcUnion::strong_count(&u), || { ArcUnion::strong_count(&u); }, u.clone())
+            go!(
+                heap,
+                ArcUnion::strong_count(&u),
+                || {
+                    ArcUnion::strong_count(&u);
+                },
+                u.clone()
+            )
         }
         9 => {
             let t: ThinArc<u8, u32> = ThinArc::from_header_and_slice(1, &[1, 2, 3]);
-            go!(t.heap_ptr() as usize, ThinArc::strong_count(&t), || { ThinArc::strong_count(&t); }, t.with_arc(|a| a.clone()))
+            go!(
+                t.heap_ptr() as usize,
+                ThinArc::strong_count(&t),
+                || {
+                    ThinArc::strong_count(&t);
+                },
+                t.with_arc(|a| a.clone())
+            )
         }
         10 => {
             let o = Arc::into_raw_offset(Arc::new(5u64));
-            go!(o.with_arc(|a| a.heap_ptr() as usize), OffsetArc::strong_count(&o), || { OffsetArc::strong_count(&o); }, o.with_arc(|a| a.clone()))
+            go!(
+                o.with_arc(|a| a.heap_ptr() as usize),
+                OffsetArc::strong_count(&o),
+                || {
+                    OffsetArc::strong_count(&o);
+                },
+                o.with_arc(|a| a.clone())
+            )
         }
         11 => {
             let a: Arc<u64> = Arc::new(5);
             let b = a.borrow_arc();
-            go!(a.heap_ptr() as usize, ArcBorrow::strong_count(&b), || { ArcBorrow::strong_count(&b); }, b.with_arc(|x| x.clone()))
+            go!(
+                a.heap_ptr() as usize,
+                ArcBorrow::strong_count(&b),
+                || {
+                    ArcBorrow::strong_count(&b);
+                },
+                b.with_arc(|x| x.clone())
+            )
         }
         12 => {
             let a: Arc<u64> = Arc::new(5);
-            go!(a.heap_ptr() as usize, Arc::count(&a), || { Arc::count(&a); }, a.with_raw_offset_arc(|o| o.clone()))
+            go!(
+                a.heap_ptr() as usize,
+                Arc::count(&a),
+                || {
+                    Arc::count(&a);
+                },
+                a.with_raw_offset_arc(|o| o.clone())
+            )
         }
         _ => {
             let mut t: ThinArc<u8, u32> = ThinArc::from_header_and_slice(1, &[1, 2, 3]);
             let heap = t.heap_ptr() as usize;
             let tp = &mut t as *mut ThinArc<u8, u32>;
-            go!(heap, ThinArc::strong_count(unsafe { &*tp }), || { ThinArc::strong_count(unsafe { &*tp }); }, unsafe { &mut *tp }.with_arc_mut(|a| a.clone()))
+            go!(
+                heap,
+                ThinArc::strong_count(unsafe { &*tp }),
+                || {
+                    ThinArc::strong_count(unsafe { &*tp });
+                },
+                unsafe { &mut *tp }.with_arc_mut(|a| a.clone())
+            )
         }
     }
 }
 
 /// Parent side: one child per (entry, start).
 pub fn parent(entry: usize, st: &mut OStats) -> R {
-    let exe = std::env::current_exe().map_err(|e| Viol { props: "", oracle: "harness", msg: format!("current_exe: {}", e) })?;
+    let exe = std::env::current_exe().map_err(|e| Viol {
+        props: "",
+        oracle: "harness",
+        msg: format!("current_exe: {}", e),
+    })?;
     let max = isize::MAX as usize;
     for start in starts() {
         let out = std::process::Command::new(&exe)
-            .args(["ovchild", &format!("entry={}", entry), &format!("start={}", start)])
+            .args([
+                "ovchild",
+                &format!("entry={}", entry),
+                &format!("start={}", start),
+            ])
             .output()
-            .map_err(|e| Viol { props: "", oracle: "harness", msg: format!("spawn: {}", e) })?;
+            .map_err(|e| Viol {
+                props: "",
+                oracle: "harness",
+                msg: format!("spawn: {}", e),
+            })?;
         let so = String::from_utf8_lossy(&out.stdout).to_string();
         let what = format!("{} at count {:#x}", ENTRIES[entry], start);
         use std::os::unix::process::ExitStatusExt;
         if so.contains("HARNESS") || !so.contains("BEFORE") {
-            return viol("", "harness", format!("{}: child could not set up: {} {}", what, so.trim(), String::from_utf8_lossy(&out.stderr).lines().last().unwrap_or("")));
+            return viol(
+                "",
+                "harness",
+                format!(
+                    "{}: child could not set up: {} {}",
+                    what,
+                    so.trim(),
+                    String::from_utf8_lossy(&out.stderr)
+                        .lines()
+                        .last()
+                        .unwrap_or("")
+                ),
+            );
         }
         ensure!(
             !so.contains("CAUGHT"),
@@ -201,11 +334,21 @@ pub fn parent(entry: usize, st: &mut OStats) -> R {
             "{}: the clone ended in a catchable panic instead of succeeding or aborting the process",
             what
         );
-        let after = so.lines().find(|l| l.starts_with("AFTER")).map(|l| l.to_string());
+        let after = so
+            .lines()
+            .find(|l| l.starts_with("AFTER"))
+            .map(|l| l.to_string());
         let outcome;
         match (&after, out.status.signal()) {
             (Some(line), None) => {
-                ensure!(out.status.success(), "", "harness", "{}: child printed AFTER but exited with {:?}", what, out.status);
+                ensure!(
+                    out.status.success(),
+                    "",
+                    "harness",
+                    "{}: child printed AFTER but exited with {:?}",
+                    what,
+                    out.status
+                );
                 ensure!(
                     start <= max,
                     "C16",
@@ -214,7 +357,11 @@ pub fn parent(entry: usize, st: &mut OStats) -> R {
                     what,
                     line
                 );
-                let want = format!("count={} word={}", start.wrapping_add(1), start.wrapping_add(1));
+                let want = format!(
+                    "count={} word={}",
+                    start.wrapping_add(1),
+                    start.wrapping_add(1)
+                );
                 ensure!(
                     line.ends_with(&want),
                     "C16,C04",
@@ -235,14 +382,36 @@ pub fn parent(entry: usize, st: &mut OStats) -> R {
                     what,
                     sig
                 );
-                ensure!(sig == 6 || sig == 4, "C16", "overflow", "{}: the process died with signal {} rather than aborting", what, sig);
+                ensure!(
+                    sig == 6 || sig == 4,
+                    "C16",
+                    "overflow",
+                    "{}: the process died with signal {} rather than aborting",
+                    what,
+                    sig
+                );
                 outcome = "aborted";
             }
             (None, None) => {
-                return viol("C16", "overflow", format!("{}: the child exited with {:?} without finishing the clone or aborting", what, out.status.code()));
+                return viol(
+                    "C16",
+                    "overflow",
+                    format!(
+                        "{}: the child exited with {:?} without finishing the clone or aborting",
+                        what,
+                        out.status.code()
+                    ),
+                );
             }
             (Some(_), Some(sig)) => {
-                return viol("", "harness", format!("{}: child printed AFTER and then died with signal {}", what, sig));
+                return viol(
+                    "",
+                    "harness",
+                    format!(
+                        "{}: child printed AFTER and then died with signal {}",
+                        what, sig
+                    ),
+                );
             }
         }
         st.counts.bump(&format!("overflow.{}", outcome));
